@@ -401,7 +401,7 @@ func C18() *sim.Check {
 
 	conc := func(name string, quick, thorough, perProc int) *sim.Batch {
 		b := &sim.Batch{Name: name, Quick: quick, Thorough: thorough, Isolated: true, PerProc: perProc, Workers: 16, Env: raceEnv,
-			ChildTimeout: 240 * time.Second, ClassifyAbort: classifyRace, MaxShrink: 120}
+			ChildTimeout: 600 * time.Second, ClassifyAbort: classifyRace, MaxShrink: 120}
 		b.ChildInit = startConcHelper
 		b.Run = func(c *sim.RunCtx) *sim.Outcome {
 			t := c.T
@@ -507,7 +507,7 @@ func C18() *sim.Check {
 
 	// isolation over histories: probe0 ; (polluter ; probe)*
 	var probe0 string
-	iso := &sim.Batch{Name: "isolation", Quick: 12000, Thorough: 250_000, Isolated: true, PerProc: 1, Workers: 16, Env: raceEnv, ChildTimeout: 240 * time.Second, ClassifyAbort: classifyRace, MaxShrink: 150}
+	iso := &sim.Batch{Name: "isolation", Quick: 12000, Thorough: 250_000, Isolated: true, PerProc: 1, Workers: 16, Env: raceEnv, ChildTimeout: 600 * time.Second, ClassifyAbort: classifyRace, MaxShrink: 150}
 	// probe0 comes from a separate pristine process; this process runs its first
 	// polluter BEFORE its first probe, so state that only the first use fixes
 	// (lazy tables, anything "burnt in" by the first error) is covered too
